@@ -746,6 +746,78 @@ mod oracle {
         }
     }
 
+    // ---------------------------------------------------------------- C12 ------------
+    /// reference ESS (f64): M*N/tau with Geyer's initial positive, monotone pair sums on the half-chains
+    fn reference_split_ess(x: &[Vec<f64>]) -> f64 {
+        let n = x[0].len();
+        let half = n / 2;
+        let mut hs: Vec<Vec<f64>> = vec![];
+        for ch in x {
+            hs.push(ch[..half].to_vec());
+        }
+        for ch in x {
+            hs.push(ch[n - half..].to_vec());
+        }
+        let m = hs.len() as f64;
+        let nh = half as f64;
+        let means: Vec<f64> = hs.iter().map(|h| h.iter().sum::<f64>() / nh).collect();
+        let grand = means.iter().sum::<f64>() / m;
+        let w = hs.iter().zip(means.iter()).map(|(h, mu)| h.iter().map(|v| (v - mu) * (v - mu)).sum::<f64>() / nh).sum::<f64>() / m;
+        let b_over_n = means.iter().map(|mu| (mu - grand) * (mu - grand)).sum::<f64>() / (m - 1.0);
+        let var_plus = (nh - 1.0) / nh * w + b_over_n;
+        let acov = |h: &Vec<f64>, mu: f64, lag: usize| -> f64 { (0..half - lag).map(|t| (h[t] - mu) * (h[t + lag] - mu)).sum::<f64>() / nh };
+        let rho: Vec<f64> = (0..half)
+            .map(|t| 1.0 - (w - hs.iter().zip(means.iter()).map(|(h, mu)| acov(h, *mu, t)).sum::<f64>() / m) / var_plus)
+            .collect();
+        let mut min = if half >= 2 { rho[0] + rho[1] } else { 0.0 };
+        let mut out = 0.0;
+        for k in 0..half / 2 {
+            let mut p = rho[2 * k] + rho[2 * k + 1];
+            if p <= 0.0 {
+                break;
+            }
+            if p > min {
+                p = min;
+            }
+            min = p;
+            out += p;
+        }
+        m * nh / (-1.0 + 2.0 * out)
+    }
+    #[test]
+    fn oracle_c12_ess_both_autocovariance_paths() {
+        use mini_mcmc::stats::split_rhat_mean_ess;
+        // AR(1)-like deterministic sequences; lengths on both sides of the 100-row switch (half-chains of 100 / 101 / 128 / 150 rows)
+        for n in [8usize, 40, 199, 200, 201, 202, 203, 256, 257, 300, 410] {
+            for n_chains in [1usize, 2, 4] {
+                for phi in [0.0f64, 0.5, 0.9, -0.5] {
+                    let chains: Vec<Vec<f64>> = (0..n_chains)
+                        .map(|c| {
+                            let mut v = vec![0.0f64; n];
+                            let mut state = 0.3 * c as f64;
+                            let mut lcg: u64 = 12345 + 977 * c as u64;
+                            for t in 0..n {
+                                lcg = lcg.wrapping_mul(6364136223846793005).wrapping_add(1442695040888963407);
+                                let e = ((lcg >> 11) as f64 / (1u64 << 53) as f64) - 0.5;
+                                state = phi * state + e;
+                                v[t] = state;
+                            }
+                            v
+                        })
+                        .collect();
+                    let rounded: Vec<Vec<f64>> = chains.iter().map(|ch| ch.iter().map(|x| (*x as f32) as f64).collect()).collect();
+                    let want = reference_split_ess(&rounded);
+                    let arr = ndarray::Array3::from_shape_fn((n_chains, n, 1), |(c, t, _)| chains[c][t] as f32);
+                    let (_rhat, ess) = split_rhat_mean_ess(arr.view());
+                    let got = ess[0] as f64;
+                    if !((got - want).abs() <= 5e-3 * want.abs()) {
+                        witness(format!("{{\"oracle\":\"c12\",\"draws\":{n},\"chains\":{n_chains},\"phi\":{phi},\"got\":{got},\"want\":{want},\"what\":\"ESS differs from M*N/tau with Geyer's monotone pair sums (half-chain length {})\"}}", n / 2));
+                    }
+                }
+            }
+        }
+    }
+
     // ---------------------------------------------------------------- C16 ------------
     #[test]
     fn oracle_c16_categorical() {
